@@ -259,6 +259,9 @@ pub enum DecompressBlockError {
         expected_len: usize,
         remaining_bytes: usize,
     },
+    LiteralsSizeTooLarge {
+        size: u32,
+    },
     DecompressLiteralsError(DecompressLiteralsError),
     LiteralsSectionParseError(LiteralsSectionParseError),
     SequencesHeaderParseError(SequencesHeaderParseError),
@@ -293,6 +296,13 @@ impl core::fmt::Display for DecompressBlockError {
             } => {
                 write!(f,
                     "Malformed section header. Says literals would be this long: {expected_len} but there are only {remaining_bytes} bytes left",
+                )
+            }
+            DecompressBlockError::LiteralsSizeTooLarge { size } => {
+                write!(
+                    f,
+                    "Literals section says it regenerates {size} bytes. Maximum is {}",
+                    crate::common::MAX_BLOCK_SIZE,
                 )
             }
             DecompressBlockError::DecompressLiteralsError(e) => write!(f, "{e:?}"),
@@ -684,6 +694,7 @@ pub enum ExecuteSequencesError {
     DecodebufferError(DecodeBufferError),
     NotEnoughBytesForSequence { wanted: usize, have: usize },
     ZeroOffset,
+    BlockSizeTooLarge { size: u64 },
 }
 
 impl core::fmt::Display for ExecuteSequencesError {
@@ -700,6 +711,13 @@ impl core::fmt::Display for ExecuteSequencesError {
             }
             ExecuteSequencesError::ZeroOffset => {
                 write!(f, "Illegal offset: 0 found")
+            }
+            ExecuteSequencesError::BlockSizeTooLarge { size } => {
+                write!(
+                    f,
+                    "Sequences would regenerate a block of {size} bytes. Maximum is {}",
+                    crate::common::MAX_BLOCK_SIZE,
+                )
             }
         }
     }
